@@ -86,7 +86,7 @@ fn dec_val(v: &[u8]) -> i64 {
 enum Backend {
     Mem(MemoryStore<OnChain>),
     Rocks(RocksDb<OnChain>, #[allow(dead_code)] TempDir),
-    Hist(HistoricalRocksDB<OnChain>, #[allow(dead_code)] TempDir, u32),
+    Hist(HistoricalRocksDB<OnChain>, #[allow(dead_code)] TempDir, u32, String),
 }
 
 impl Backend {
@@ -103,7 +103,7 @@ impl Backend {
                 let dir = TempDir::new().unwrap_or_else(|e| die(&format!("tempdir: {e}")));
                 let db = HistoricalRocksDB::<OnChain>::default_open(dir.path(), policy(&h[5..]), db_config())
                     .unwrap_or_else(|e| die(&format!("open historical rocksdb: {e}")));
-                Backend::Hist(db, dir, 0)
+                Backend::Hist(db, dir, 0, h[5..].to_string())
             }
             b => die(&format!("unknown backend {b}")),
         }
@@ -113,7 +113,7 @@ impl Backend {
         let r = match self {
             Backend::Mem(s) => guarded(|| s.commit_changes(None, changes)),
             Backend::Rocks(db, _) => guarded(|| db.commit_changes(&changes)),
-            Backend::Hist(db, _, h) => {
+            Backend::Hist(db, _, h, _) => {
                 // the history-keeping store is committed with consecutive heights, as the node does
                 *h += 1;
                 let height: BlockHeight = (*h).into();
@@ -127,11 +127,34 @@ impl Backend {
         }
     }
 
+    /// close the RocksDB handle and open the same directory again (the in-memory store has nothing to reopen)
+    fn reopen(self) -> Self {
+        match self {
+            Backend::Rocks(db, dir) => {
+                drop(db);
+                let db = RocksDb::<OnChain>::default_open(dir.path(), db_config())
+                    .unwrap_or_else(|e| die(&format!("reopen rocksdb: {e}")));
+                Backend::Rocks(db, dir)
+            }
+            Backend::Hist(db, dir, h, p) => {
+                drop(db);
+                let db = HistoricalRocksDB::<OnChain>::default_open(dir.path(), policy(&p), db_config())
+                    .unwrap_or_else(|e| die(&format!("reopen historical rocksdb: {e}")));
+                Backend::Hist(db, dir, h, p)
+            }
+            m => m,
+        }
+    }
+
+    fn is_mem(&self) -> bool {
+        matches!(self, Backend::Mem(_))
+    }
+
     fn store(&self) -> &dyn IterableStore<Column = Column> {
         match self {
             Backend::Mem(s) => s,
             Backend::Rocks(db, _) => db,
-            Backend::Hist(db, _, _) => db,
+            Backend::Hist(db, _, _, _) => db,
         }
     }
 }
@@ -300,6 +323,12 @@ pub fn run(args: &Args) {
                     let l = s.get("L").and_then(|v| v.as_array()).unwrap_or_else(|| die("Commit.L"));
                     do_commit(&mut t, b, &ctx, l, s.boolean("list"));
                 }
+                "Reopen" => {
+                    let b = be.take().unwrap_or_else(|| die("Reopen before New")).reopen();
+                    let (store, pts) = dump(&b, &ctx);
+                    t.event("Reopen", json!({"store": store, "pts": pts}));
+                    be = Some(b);
+                }
                 "Query" => {
                     let b = be.as_ref().unwrap_or_else(|| die("Query before New"));
                     do_query(
@@ -380,6 +409,12 @@ pub fn random(args: &Args) {
                 do_commit(&mut t, &mut b, &ctx, l, *aslist);
             }
             if h < scan {
+                // every other scan reads from SST files (after a close + open) instead of the memtable
+                if h % 2 == 1 && !b.is_mem() {
+                    b = b.reopen();
+                    let (store, pts) = dump(&b, &ctx);
+                    t.event("Reopen", json!({"store": store, "pts": pts}));
+                }
                 scan_all(&mut t, &b, &ctx);
             }
             drop(b);
